@@ -50,7 +50,8 @@ def gen_case(g, closing):
                 script.append([k, d, g.int(0, 3)])
         actors.append(script)
     return {"config": g.choice(["S", "S", "E", "U"]), "max": g.choice(MAXES), "ns": ns, "nr": nr,
-            "keep_r": (not closing) or g.chance(50), "actors": actors, "nest": g.choice([0, 0, 1, 2])}
+            "keep_r": (not closing) or g.chance(50), "actors": actors, "nest": g.choice([0, 0, 1, 2]),
+            "residue": g.chance(12)}
 
 
 def run_stream_case(case):
@@ -62,6 +63,7 @@ def run_stream_case(case):
 
     async def body(sim):
         sim.nest = case.get("nest", 0)
+        sim.residue = bool(case.get("residue"))
         s0, r0 = create_memory_object_stream(maxbuf)
         sends = [s0] + [s0.clone() for _ in range(case["ns"] - 1)]
         recvs = [r0] + [r0.clone() for _ in range(case["nr"] - 1)]
